@@ -241,7 +241,9 @@ def project(conc, out_line, mode):
         if scrub or len(out_words) != len(in_words):
             # the line was restructured: scrubbed (secret gone) or something else
             gone = s["value"] not in out_line
-            ev.update({"scrubbed": bool(scrub and gone), "repl": orig if not gone else "<restructured>", "pseudo": "<none>", "ocls": "none", "oslen": 0,
+            # scrubbed = the secret is gone and the line was restructured, for a form whose mode is scrub
+            # (any wording of the notice), or with today's notice for any form
+            ev.update({"scrubbed": bool(gone and (scrub or mode == "scrub")), "repl": orig if not gone else "<restructured>", "pseudo": "<none>", "ocls": "none", "oslen": 0,
                        "ctxin": ctxin, "ctxout": "<restructured:%d words>" % len(out_words)})
             events.append(ev)
             continue
